@@ -42,6 +42,42 @@ def tops(paths):
     return out
 
 
+def await_rule(ck, F, E, P):
+    """INPUT decides whether a reply is pending before doing anything else: every parsing / evaluating call of
+    evaluate_input_statement lies on the Some arm of take_input() (shared with C07: breaking at the prompt and
+    CONTinuing re-executes this statement, which must then be a no-op until a reply exists)."""
+    ei = F.one("StatementEvaluator::evaluate_input_statement")
+    if ei is None:
+        ck.missing("%s:AWAIT:fn" % P, "StatementEvaluator::evaluate_input_statement")
+        return
+    ti = ei.calls_to("Interpreter::take_input")
+    if len(ti) != 1:
+        ck.bad("%s:AWAIT:nothing-before-reply-check" % P, "awaiting path", "take_input is called %d times" % len(ti), ei.span)
+        return
+    some_t = None
+    for b in sorted(ei.reachable()):
+        info = ei.switch_info(b)
+        if info and info[3] and set(info[3].values()) == {"None", "Some"} and any(len(x) > 3 and x[3] is ti[0] for x in expr_calls(info[0])):
+            for v, n in info[3].items():
+                if n == "Some":
+                    some_t = info[1].get(v, info[2])
+            break
+    early = []
+    for c in ei.calls():
+        if not c.is_local or c is ti[0]:
+            continue
+        nm = c.callee.split("::")[-1]
+        if nm in ("program", "rewind_program_and_await_input", "output"):
+            continue
+        if some_t is None or not ei.dominates(some_t, c.bb):
+            early.append(nm)
+    ck.require(some_t is not None and not early, "%s:AWAIT:nothing-before-reply-check" % P, "awaiting path",
+               "every parsing / evaluating call of INPUT lies on the Some arm of take_input()",
+               "evaluate_input_statement runs %s before (or regardless of) checking for a pending reply: the target's subscript "
+               "expressions are evaluated when the interpreter merely starts awaiting input, and again on every re-execution "
+               "(after the reply, after REENTER, after break + CONT at the prompt)" % sorted(set(early)), ei.span)
+
+
 def run(ck, F, E):
     # ---- (1)
     cs = sorted({b.path for b, _ in callers_of(F, "Interpreter::rewind_program_and_await_input")})
@@ -111,6 +147,8 @@ def run(ck, F, E):
     if none_t is None or some_t is None:
         ck.missing("C08:ARMS:switch", "the Some/None test of take_input()")
         return
+    # (2a) nothing is evaluated before the reply check
+    await_rule(ck, F, E, "C08")
     # (2) awaiting path
     nreg = exclusive_region(ei, none_t)
     eff = tops(region_effects(E, ei, nreg))
@@ -161,6 +199,19 @@ def run(ck, F, E):
         ck.require("len(" in txt and "Gt" in txt or "len" in txt, "C08:EXTRA:condition", "EXTRA IGNORED",
                    "guarded by data.len() > 1 || has_leftover_input", "the EXTRA IGNORED condition changed: %s" % txt[:200], ei.span,
                    nontrivial=False)
+    # EXTRA IGNORED: "leftover" means the DATA parser did not consume the whole reply
+    tkb = F.one("Interpreter::take_input")
+    if tkb is not None:
+        ok = False
+        for b, i, pl, rv, sp in tkb.assigns():
+            if rv["k"] == "binop" and rv["op"] == "Lt":
+                l, r = show(tkb.expr(rv["a"])), show(tkb.expr(rv["b"]))
+                if "parse_data_until_colon" in l and ".1" in l and "len(" in r:
+                    ok = True
+        ck.require(ok, "C08:EXTRA:leftover-by-bytes-read", "EXTRA IGNORED",
+                   "has_leftover_input = bytes consumed by the DATA parser < reply length",
+                   "take_input no longer derives `leftover input` from the number of bytes the DATA parser consumed: a quoted reply "
+                   "containing a colon (\"12:30\") is reported as EXTRA IGNORED", tkb.span)
     # (3) reply consumed once
     ws = E.writers_of_field("interpreter::Interpreter", "input")
     names = sorted(n.split("::")[-1] for n in ws)
